@@ -34,6 +34,8 @@ static int consult (const char *call, long *k) {
 		if (!strcmp (o, "EINTR")) { errno = EINTR; slog ("!EINTR"); return 1; }
 		if (!strcmp (o, "EAGAIN")) { errno = EAGAIN; slog ("!EAGAIN"); return 1; }
 		if (!strncmp (o, "SHORT", 5)) { *k = atol (o + 5); slog ("!SHORT"); return 2; }
+		/* a signal that arrives after the call has been waiting for a while: the wait lasts N ms, then reports EINTR */
+		if (!strncmp (o, "LATE", 4)) { struct timespec ts; long ms = atol (o + 4); ts.tv_sec = ms / 1000; ts.tv_nsec = (ms % 1000) * 1000000L; while (nanosleep (&ts, &ts) == -1 && errno == EINTR) ; errno = EINTR; slog ("!EINTR"); return 1; }
 	}
 	return 0;
 }
